@@ -2220,7 +2220,7 @@ func (x *Exec) reportViolation(kind, msg, site string, cond *Term) {
 		x.sol.define(t)
 		vars = append(vars, t)
 	}
-	var r Result
+	r := Unknown // NB: the zero value of Result is Unsat
 	var vals map[int]*big.Int
 	if x.cfg.Params["int_alt"] == 1 {
 		// arithmetic-heavy harnesses: take the counterexample from the integer
